@@ -555,7 +555,8 @@ def shard_fees(ctx: Ctx) -> None:
                 dctx.prec = prec
                 d = Decimal(txt)
                 calls = [("sats_from_btc", lambda: am.sats_from_btc(d)), ("TxOut.from_dict", lambda: TxOut.from_dict({"value": txt, "scriptPubKey": "51"}).value),
-                         ("sats_from_btc(str)", lambda: am.sats_from_btc(txt))]
+                         ("sats_from_btc(str)", lambda: am.sats_from_btc(txt)),
+                         ("btc_from_sats", lambda: int(Fraction(am.btc_from_sats(want)) * 10**8))]
                 for name, call in calls:
                     o = outcome(call)
                     ctx.case("amount:decimal-context", ("ctx", prec, txt, name))
@@ -565,5 +566,27 @@ def shard_fees(ctx: Ctx) -> None:
                                       f"{name}({txt}) under decimal precision {prec} -> {o[1]!r}, the digits say {want}", {"text": txt, "prec": prec})
                     elif o[0] == "raise":
                         ctx.stats["amount:decimal-context:refused"] += 1
+        # the fee-rate unit conversions read digits too: sat/vB with three decimals, BTC/kvB with eight
+        for txt in ["1.001", "0.001", "123456.789", "99999.999", "12345678.912", "1000000.001", "2.5", "17"] + \
+                [f"{r.randrange(10**11) / 1000:.3f}" for _ in range(6)]:
+            whole, _, frac = txt.partition(".")
+            want = int(whole) * 1000 + int((frac + "000")[:3])
+            with decimal.localcontext() as dctx:
+                dctx.prec = prec
+                d = Decimal(txt)
+                btc = f"{want // 10**8}.{want % 10**8:08d}"
+                calls = [("from_sats_per_vbyte", lambda: FeeRate.from_sats_per_vbyte(d).sats_per_kvbyte),
+                         ("from_sats_per_vbyte(str)", lambda: FeeRate.from_sats_per_vbyte(txt).sats_per_kvbyte),
+                         ("from_btc_per_kvbyte(str)", lambda: FeeRate.from_btc_per_kvbyte(btc).sats_per_kvbyte),
+                         ("sats_per_vbyte", lambda: int(Fraction(FeeRate(sats_per_kvbyte=want).sats_per_vbyte) * 1000))]
+                for name, call in calls:
+                    o = outcome(call)
+                    ctx.case("fees:decimal-context", ("fctx", prec, txt, name))
+                    ctx.stats["fees:decimal-context"] += 1
+                    if o[0] == "ok" and o[1] != want:
+                        ctx.violation(f"fee-rate-conversion-inexact:decimal-context:{name}",
+                                      f"{name}({txt}) under decimal precision {prec} -> {o[1]!r}, the digits say {want}", {"text": txt, "prec": prec})
+                    elif o[0] == "raise":
+                        ctx.stats["fees:decimal-context:refused"] += 1
     reach.stop()
     reach.report(ctx)
